@@ -19,6 +19,30 @@ CHECKS = {
    text="Held on every single-client history explored: an independent ready-set model (must/may sets, 10 ms sweep granularity) bounds the size and content of every dequeue on memory and SQLite, through the store and through pullapi (max_batch 1/5/100/250); SQLite handles abandoned with leases held are reopened past expiry and must offer everything exactly once.",
    note="Unbounded liveness restated as bounded progress on the store clock. One known finding (KF2: max_batch > 100). Postgres not covered.",
    technique="runtime monitoring: reference-model monitor (ready set) over generated single-client histories under a virtual clock; abandon-and-reopen crash simulation"),
+ "C06": dict(level="exploration", ref="DESIGN.md §3 C06",
+   text="Held on every scripted scenario: the real PushDispatcher runs against a recording store wrapper and a scripted deliverer under a harness-driven virtual clock; the finite classification table (status 100-599 x error kinds x attempts 1..max+1 for retry.max 1 and 3) is enumerated completely, plus generated per-target behaviour sequences, retry configs, DLQ requeue cycles, injected store failures and a real-HTTP sample; every settlement, nack delay, next offer time and attempt record is compared with an independent table.",
+   note="Attempt bound and terminal-state clauses only asserted without injected store failures (as the quantifier says). Real time is only a watchdog.",
+   technique="runtime monitoring: event-log checker over a recording store wrapper + scripted deliverer against an independent classification table (virtual clock)"),
+ "C07": dict(level="exploration", ref="DESIGN.md §3 C07",
+   text="Held on every message explored: bodies and header sets written byte by byte over TCP to the production ingress handler (and items published through the Admin API) are consumed through Pull HTTP, Worker gRPC, the Admin listing and push delivery to a local sink, after 1-3 redeliveries and (SQLite) after a restart on the same file; payload compared by bytes/sha256, headers against a re-implemented storage rule.",
+   note="Hop-by-hop / stack-managed headers excluded from the comparison; ~450 messages x 4 consumers per quick run.",
+   technique="runtime monitoring: end-to-end byte/sha256 comparison through the production wiring with an independent header-rule oracle"),
+ "C08": dict(level="exploration", ref="DESIGN.md §3 C08",
+   text="Held on every generated request: configurations with basic, hmac (inline and windowed secrets, custom headers, tolerance) and forward auth (mock service incl. hang, reset, closed port, redirect) run through the production wiring under a virtual clock; a valid request and single-field mutations of it are judged by an independent authenticator: queue changed => authentic; not authentic => 401/403/503 as stated and queue unchanged.",
+   note="Soundness is the claim; completeness is a vacuity guard only. At exactly |now-ts| = tolerance either answer is accepted.",
+   technique="runtime monitoring: reference-model monitor (independent authenticator) + snapshot-unchanged-on-rejection over generated and mutated requests"),
+ "C09": dict(level="exploration", ref="DESIGN.md §3 C09",
+   text="Held on every history explored: per-nonce acceptance ledger over ingress.HMACAuth histories under a virtual clock (replays at every instant class incl. exactly ts+tolerance, up to 5000 interleaved nonces), 16-goroutine identical requests under the race detector, and original/reload/replay histories through the production reload path (unchanged file, changed file, two reloads, Admin management mutation).",
+   note="The ledger is the consequence shared by every reading of the statement (later arrival must be > ts_first + tolerance).",
+   technique="runtime monitoring: offline checker (at-most-once ledger) over recorded acceptance histories; Go race detector"),
+ "C10": dict(level="exploration", ref="DESIGN.md §3 C10",
+   text="Held on every generated configuration/request pair: 120 (quick) configurations with overlapping paths, match blocks, named matchers and inbound/outbound/internal routes, 140 requests each (perturbed paths, methods, hosts, headers, queries, remote addresses) against the production ingress handler, compared with an independent reference resolver written from the documented routing semantics (status, Allow, route of the stored message).",
+   note="Upper-case request methods and comma-free header values only (documentation and implementation differ there, outside the statement).",
+   technique="runtime monitoring: differential against an independent reference resolver over generated configurations and requests"),
+ "C11": dict(level="exploration", ref="DESIGN.md §3 C11",
+   text="Held on every generated configuration and credential: every pull endpoint x {dequeue, ack, nack, extend} over HTTP and gRPC and every Admin endpoint/method pair with ~17 credential variants against the production wiring with a pre-loaded queue whose lease ids the caller knows; independent allowlist oracle: not authorized => 401/Unauthenticated and snapshot unchanged; configurations with an empty effective allowlist must not compile.",
+   note="Scheme-case and second-header-value variants are treated as ambiguous.",
+   technique="runtime monitoring: reference-model monitor (allowlist oracle) + snapshot-unchanged-on-401 over generated configurations and credentials"),
  "C12": dict(level="exploration", ref="DESIGN.md §3 C12",
    text="Held on every generated sequence: an independent admission model predicts admit/refuse and the exact evicted set for each enqueue (max_depth 1-8 x reject/drop_oldest, memory-pressure limits on memory) and every refusal must leave the snapshot unchanged; body/header sizes around the limits and arrival sequences (bursts, steady, idle gaps, 16-goroutine same-instant) go through the production ingress handler and token-bucket limiter under a virtual clock.",
    note="received_at strictly increasing, retention off, so that 'oldest' and the active count are unambiguous; over-depth histories skipped as the quantifier says.",
@@ -32,6 +56,28 @@ CHECKS = {
    note="Admin HTTP and MCP surfaces are sampled on top of the store-level runs. Postgres not covered.",
    technique="runtime monitoring: reference-model monitor (independent selection) + snapshot diff over generated populations and mutations"),
 }
+CHECKS.update({
+ "C15": dict(level="exploration", ref="DESIGN.md §3 C15",
+   text="Held on every generated batch: 1-40 (thorough up to 1000) items with at most one invalid item of 22 kinds at a generated position, request-level causes, policy variations, managed/unmanaged and global/endpoint-scoped paths, near-full queues under both drop policies on memory and SQLite, through the production Admin wiring; independent validator: reject => snapshot unchanged + item_index names the item; accept => every item present once, queued, as published.",
+   note="item_index equality only when exactly one item is invalid.",
+   technique="runtime monitoring: reference-model monitor (independent validator) + snapshot diff over generated publish batches"),
+ "C16": dict(level="exploration", ref="DESIGN.md §3 C16",
+   text="Held on every URL/policy case: 24k (quick) generated policies x URL chains through the real HTTPDeliverer with a recording RoundTripper and a scripted resolver; every URL that reaches the transport (first hop and up to 12 redirect hops) must be allowed by an independent evaluator written from the statement; denials through the PushDispatcher must be dead-lettered policy_denied without a request.",
+   note="The resolver answer is the one the policy check saw; later re-resolution by the dialer is outside the statement.",
+   technique="runtime monitoring: hooked transport/resolver + independent policy evaluator over generated URLs and redirect chains"),
+ "C17": dict(level="exploration", ref="DESIGN.md §3 C17",
+   text="Held on every case: generated secret-version sets and selection modes compiled by config.Compile; the real HTTPDeliverer (injected Now on window boundaries) posts to a local server and the signature is recomputed over the request as received with the independently selected version; no valid/loadable version => zero requests; inbound verification through the production loadAuth wiring accepts exactly the secrets valid at the signed timestamp.",
+   note="valid_from ties broken by smallest id (the order secrets.Set documents).",
+   technique="runtime monitoring: receiver-side recomputation + independent version selection over generated rotation windows"),
+ "C19": dict(level="exploration", ref="DESIGN.md §3 C19",
+   text="Held (modulo one known finding) on every text that parses: grammar-directed texts, spelling mutators and a corpus harvested from the tree and recombined (~5k parsing texts quick, ~300k thorough); Format(Parse(t)) must parse, compile to a DeepEqual runtime configuration with the same validation result, and be a fixed point.",
+   note="Known finding KF3: empty quoted values are dropped by the formatter.",
+   technique="runtime monitoring: metamorphic/differential oracle over generated configuration programs"),
+ "C20": dict(level="exploration", ref="DESIGN.md §3 C20",
+   text="The complete finite gating table (34 tool names x 3 roles x 4 flag combinations x principal x actor = 1488 rows) is executed on fresh MCP servers with file/database/process/audit snapshots, tools/list is compared for all 24 server configurations, and config-writing tools are probed with foreign, traversal and symlink paths, unknown keys and non-compiling content.",
+   note="exhaustive: true refers to the gating table; argument values for the confinement clauses are sampled. Expected table transcribed by hand from spec.md and cross-checked at run time.",
+   technique="runtime monitoring: exhaustive table-driven execution with before/after state snapshots and audit-log checker"),
+})
 NOT_APPLICABLE = {}
 ALL = ["C%02d" % i for i in range(1, 21)]
 
